@@ -12,16 +12,20 @@ oracle of the check, evaluated on every real output.
 -/
 import Rpft.Lemmas.Campaign
 import Rpft.Gen.Tables
+import Rpft.Canon
 set_option linter.unusedSimpArgs false
 set_option linter.unusedVariables false
 namespace Rpft.Props.C19
 open Rpft Rpft.Campaign
 
-/-- T1: the constants of the model are the constants of the source (regenerated each run). -/
+/-- T1: the constants of the model are the constants of the source (regenerated each run by probing
+the behaviour of the validators / constructors / parser: `harness/tables/t19_campaign.py`).  The code
+words a validator accepts are sets (compared up to order); the field lists are in declaration order
+(exact: a validator sees the fields declared before it, failing fields are reported in that order). -/
 theorem tables_agree :
-    Gen.campaignUnits = units ∧ Gen.campaignStartModes = startModes ∧
-    Gen.campaignEventTypes = eventTypes ∧ Gen.campaignCtorEventTypes = [evMessage, evFlow] ∧
-    Gen.triggerTypes = trigTypes ∧ Gen.triggerMatchTypes = matchTypes ∧
+    Canon.sameSet Gen.campaignUnits units ∧ Canon.sameSet Gen.campaignStartModes startModes ∧
+    Canon.sameSet Gen.campaignEventTypes eventTypes ∧ Gen.campaignCtorEventTypes = [evMessage, evFlow] ∧
+    Canon.sameSet Gen.triggerTypes trigTypes ∧ Canon.sameSet Gen.triggerMatchTypes matchTypes ∧
     Gen.triggerMatchGuard = trigKeyword ∧ Gen.triggerCtorKeyword = trigKeyword ∧
     Gen.triggerDefaultMatch = defaultMatch ∧ Gen.fieldKeyMaxLen = maxKeyLen ∧
     Gen.campaignMessageKey = none ∧ Gen.campaignDefaultLang = defaultLang ∧
